@@ -74,7 +74,9 @@ Stm(d, inLoop, id) ==
   Leaves(inLoop, id) \cup
   (IF d = 0 THEN {}
    ELSE UNION {{IfEq(p), IfSetInt(p), MatchX(p, id), BlockOf(p), ModOf(p)} : p \in Pairs(d, inLoop, id)}
-        \cup UNION {{LoopOf(q, id), LoopOnceOf(q, id), WhileOf(q, id), ForOf(q, id), WhileSetOf(q, id)} : q \in Pairs(d, TRUE, id)})
+        \cup UNION {{LoopOf(q, id), WhileOf(q, id), ForOf(q, id), WhileSetOf(q, id)} : q \in Pairs(d, TRUE, id)}
+        \* (the run-once loop only below the root of the deepest bound: the enumeration of depth 3 is kept affordable)
+        \cup (IF d <= 2 THEN UNION {{LoopOnceOf(q, id)} : q \in Pairs(d, TRUE, id)} ELSE {}))
 
 Bodies == Stm(D, FALSE, 1)
 
